@@ -11,7 +11,7 @@ from props.c17_fam import H, IT, REP, SEQ, fs, families
 F = fractions.Fraction
 PID = 'C17'
 COQ_DIRS = ['common', 'C17']
-TARGETS = ['C17/Props.vo', 'C17/Corr.vo', 'C17/GenEq.vo', 'C17/GenObjEq.vo', 'C17/GenBaseEq.vo', 'C17/GenTrEq.vo', 'C17/ProofsSExpr.vo']
+TARGETS = ['C17/Props.vo', 'C17/Corr.vo', 'C17/GenEq.vo', 'C17/GenObjEq.vo', 'C17/GenBaseEq.vo', 'C17/GenTrEq.vo', 'C17/ProofsSExpr.vo', 'C17/GenSExprEq.vo']
 MODEL_TARGETS = ['C17/Corr.vo']
 PROPS_FILE = 'C17/Props.v'
 PROPS_MODULE = 'QV.C17.Props'
